@@ -22,6 +22,9 @@ def files():
     G.add_method(a, "PurgeWidgets", ".acme.lab.v1.Req", ".acme.lab.v1.Resp", http=("post", "/v1/{parent=p/*}:purge"), body="*")
     b = G.add_service(fd, "AuditService")
     G.add_method(b, "Global", ".acme.lab.v1.Req", ".acme.lab.v1.Resp", http=("get", "/v1/{name=g/*}"))
+    # a request type of another package with message-typed fields: the table lists all of its fields
+    G.add_method(b, "SetPolicy", ".google.iam.v1.SetIamPolicyRequest", ".acme.lab.v1.Resp", http=("post", "/v1/{resource=g/*}:setPolicy"), body="*")
+    fd.dependency.append("google/iam/v1/iam_policy.proto")
     G.add_service(fd, "IdleService")
     return [fd]
 
@@ -33,7 +36,8 @@ def check(transport, selective=None, namespace=None):
     if selective:
         yaml = {"type": "google.api.Service", "config_version": 3, "name": "lab.example.com", "publishing": {"library_settings": [
             {"version": "acme.lab.v1", "python_settings": {"common": {"selective_gapic_generation": {"methods": selective, "generate_omitted_as_internal": True}}}}]}}
-    api, res = G.generate(files(), f"autogen-snippets=false,metadata,transport={transport}" + (f",python-gapic-namespace={namespace}" if namespace else ""), service_yaml=yaml)
+    api, res = G.generate(files(), f"autogen-snippets=false,metadata,transport={transport}" + (f",python-gapic-namespace={namespace}" if namespace else ""), service_yaml=yaml,
+                          extra_dep_modules=(__import__("google.iam.v1.iam_policy_pb2", fromlist=["x"]),))
     by = {f.name: f.content for f in res.file}
     if namespace:
         # a namespace of two segments: the library package is <namespace, dotted, lower-case>.<name>_<version>
@@ -50,7 +54,7 @@ def check(transport, selective=None, namespace=None):
     with G.materialised(res):
         import importlib
         pkg = importlib.import_module("acme.lab_v1")
-        services = {"WidgetService": ["ChatWidgets", "GetWidget", "Import", "List", "NonLocal", "PurgeWidgets", "UploadWidgets"], "AuditService": ["Global"], "IdleService": []}
+        services = {"WidgetService": ["ChatWidgets", "GetWidget", "Import", "List", "NonLocal", "PurgeWidgets", "UploadWidgets"], "AuditService": ["Global", "SetPolicy"], "IdleService": []}
         if sorted(meta.get("services", {})) != sorted(services):
             failures.append(dict(label, what="services listed", got=sorted(meta.get("services", {}))))
         for s, rpcs in services.items():
@@ -78,6 +82,9 @@ def check(transport, selective=None, namespace=None):
         for key in keys:
             if table.get(key) != order:
                 failures.append(dict(label, what=f"fix-up table entry {key!r}", got=table.get(key), want=order))
+        if table.get("set_policy") != ("resource", "policy", "update_mask"):
+            failures.append(dict(label, what="fix-up table entry 'set_policy' (request type of another package)", got=table.get("set_policy"), want=("resource", "policy", "update_mask")))
+        keys = keys + ("set_policy",)
         if sorted(table) != sorted(keys):
             failures.append(dict(label, what="fix-up table keys", got=sorted(table)))
     return failures
@@ -100,6 +107,15 @@ def subpackage_fixup():
         api, res = G.generate([root, sub], "autogen-snippets=false,metadata")
     except Exception as e:      # noqa
         return [{"what": "generation failed for an API with a service in a sub-package", "error": repr(e)[:200]}]
+    # ... and the metadata lists each rpc of such a service once per client kind, with one method name
+    meta = json.loads(next(f.content for f in res.file if f.name.endswith("gapic_metadata.json")))
+    for sname, sv in meta.get("services", {}).items():
+        for kind, c in sv.get("clients", {}).items():
+            for r, m in c.get("rpcs", {}).items():
+                if len(m.get("methods", [])) != 1:
+                    failures.append({"what": "an rpc is not listed exactly once for a client kind", "service": sname, "kind": kind, "rpc": r, "methods": m.get("methods")})
+    if sorted(meta.get("services", {})) != ["Admin", "Lab"]:
+        failures.append({"what": "services listed in the metadata of an API with a sub-package service", "got": sorted(meta.get("services", {}))})
     script = next((f.content for f in res.file if f.name.startswith("scripts/fixup_") and f.name.endswith("_keywords.py")), "")
     mt = re.search(r"METHOD_TO_PARAMS: Dict\[str, Tuple\[str\]\] = (\{.*?\n    \})", script, re.S)
     table = eval(mt.group(1)) if mt else {}
